@@ -540,6 +540,10 @@ func (m *Machine) intrinsic(name string, fn *ssa.Function, args []Value) (Value,
 		return Cmp("bvslt", timeNs(args[1]), timeNs(args[0])), true
 	case "(time.Time).Equal":
 		return Eq(timeNs(args[0]), timeNs(args[1])), true
+	case "(time.Time).UTC", "(time.Time).Local", "(time.Time).Round", "(time.Time).Truncate":
+		return args[0], true
+	case "(time.Time).Format", "(time.Time).String":
+		return strLit("<time>"), true
 	case "(time.Time).IsZero":
 		return Eq(timeNs(args[0]), BV(64, 0)), true
 	case "(time.Time).UnixNano":
